@@ -448,4 +448,58 @@ example : obsOfMsg (decodeMessage intCodec (asciiBytes "{}")) = .dict := by deci
 example : messageSpec (asciiBytes "null") .null = some .messageOnlyObjects := by decide
 example : messageSpec (asciiBytes "[]") .dict = some .messageNotObjectText := by decide
 
+/-! ## Hostile input, all readers -/
+
+/-- **hostile_buffered_meets_spec.**  For every limit and every chunked byte stream whatsoever, the model's read
+    loop satisfies the executable specification `hostileSpec`: it ends (end-of-file or an error, never the
+    call budget) and the items it returned cost at most the bytes that were fed (length + 3 each). -/
+theorem hostile_buffered_meets_spec (max : Option Nat) (chunks : List Bytes) :
+    hostileSpec chunks.flatten true (sobsOfRun (nsReadAll max chunks)) = none := by
+  have ht := (buffered_reader_total max chunks).1
+  have hb := run_items_bound max (runFuel {} chunks) [] true false chunks [] 0
+  simp only [List.reverse_nil, List.length_nil] at hb
+  have hc0 : cost ([] : List Bytes) = 0 := rfl
+  rw [hc0] at hb
+  unfold nsReadAll at ht
+  unfold nsReadAll
+  generalize nsBufRun max (runFuel {} chunks) {} chunks [] 0 = r at ht hb
+  have hobs : itemsOf (sobsOfRun r) = r.items := by
+    simp [sobsOfRun, itemsOf_items]
+    cases r.final <;> simp [itemsOf]
+  unfold hostileSpec
+  rw [hobs]
+  have hsum : ¬ ((r.items.map (fun p => p.length + 3)).sum > chunks.flatten.length) := by
+    unfold cost at hb; omega
+  cases hf : r.final with
+  | outOfFuel => exact absurd hf ht
+  | eof => simp [sobsOfRun, hf]; simp [List.length_flatten] at hsum; omega
+  | error e => simp [sobsOfRun, hf]; simp [List.length_flatten] at hsum; omega
+
+/-- **hostile_model_meets_spec.**  On *arbitrary* bytes every reader's model meets the property's
+    specification, with no hypothesis on the input:
+    * TLS reader: `tlsSpec` holds (a payload only for a canonical in-limit frame, rest untouched; over-limit
+      header rejected with everything after ':' unread), and the allocation is below 10^9 and within the limit;
+    * buffered reader: `hostileSpec` holds for every chunking (the loop ends; items fit into the input), and
+      whatever it returns as an item is framed in the buffer as `header ":" item ","` with the item's length
+      the number denoted by the header's leading digits and within the limit — never bytes from elsewhere;
+    * DecodeMessage: `messageSpec` holds (a dictionary only for an object text, otherwise an error). -/
+theorem hostile_model_meets_spec {N : Type} (c : NumCodec N) (max : Option Nat) :
+    (∀ bs : Bytes, tlsSpec max bs (obsOfTls (nsReadTls max bs)) = none ∧ (nsReadTls max bs).alloc < 10 ^ 9 ∧
+        ∀ m, max = some m → (nsReadTls max bs).alloc ≤ m) ∧
+    (∀ chunks : List Bytes, hostileSpec chunks.flatten true (sobsOfRun (nsReadAll max chunks)) = none) ∧
+    (∀ (buf p : Bytes) (n : Nat), nsParseBuf max buf = .item p n →
+        ∃ pre rest, buf = pre ++ colon :: (p ++ comma :: rest) ∧ n = pre.length + 1 + p.length + 1 ∧ pre ≠ [] ∧
+          colon ∉ pre ∧ p.length = digitsVal 0 (pre.takeWhile isDigit) ∧ bufLimitExceeded max p.length = false) ∧
+    (∀ bs : List UInt8, messageSpec bs (obsOfMsg (decodeMessage c bs)) = none) :=
+  ⟨fun bs => ⟨tls_model_meets_spec max bs, (allocation_bounded max bs).1, (allocation_bounded max bs).2⟩,
+   hostile_buffered_meets_spec max,
+   fun buf p n h => nsParseBuf_item_shape max buf p n h,
+   message_model_meets_spec c⟩
+
+-- the specification is not vacuous on hostile traces
+example : hostileSpec [49, 58, 97, 59] true [.need, .hang] = some .readerEnds := by decide
+example : hostileSpec [49, 58, 97, 59] true [.need, .need] = some .readerEnds := by decide
+example : hostileSpec [49, 58, 97, 44] true [.item [97, 98, 99], .eof] = some .itemsInside := by decide
+example : hostileSpec [49, 58, 97, 59] true (sobsOfRun (nsReadAll none [[49, 58], [97, 59]])) = none := by decide
+
 end Icinga.C20
